@@ -382,7 +382,7 @@ SACK_ADAPTERS = ("std::iter::Iterator::skip", "std::iter::Iterator::take", "std:
                  "std::iter::Iterator::skip_while", "std::iter::Iterator::take_while", "std::iter::Iterator::chain", "std::iter::IntoIterator::into_iter", "std::iter::Iterator::by_ref")
 
 
-@rule("C04.6", ["C04", "C06", "C01"], ["E4", "E2", "E7"], "receiver and sender agree on what a selective-ACK bit means",
+@rule("C04.6", ["C04", "C06", "C01", "C02"], ["E4", "E2", "E7"], "receiver and sender agree on what a selective-ACK bit means",
       "Producer (OutOfOrderQueue::selective_ack): bit i is set iff slot filled_front + 1 + i of the reassembly queue is occupied - the range starts at filled_front + 1 (the slot after the first hole), is "
       "enumerated without any shifting adapter, the closure yields the unshifted index exactly for non-default slots, and SelectiveAck::new sets bit idx to true. Consumer (Segments::remove_up_to_ack): bit i "
       "is applied to the segment with sequence number ack_nr + 2 + i - sack_start = ack_nr + 2, the segment iterator is advanced by (sack_start - first_seq_nr) when that is >= 0 and the bit iterator by its "
@@ -394,7 +394,14 @@ def c04_6(R):
     # ---------------- producer
     sa = R.body("stream_rx::OutOfOrderQueue::selective_ack")
     rng = [t for t in sa.calls() if call_on_field(sa, t, ("VecDeque::range",), "OutOfOrderQueue.data")]
-    R.require(len(rng) == 1, "data.range(..) in OutOfOrderQueue::selective_ack")
+    if len(rng) != 1:
+        # describe what feeds SelectiveAck::new instead
+        chain = []
+        for t in sa.calls():
+            if t.args and (t.callee or "").startswith("std::iter::Iterator::") or call_on_field(sa, t, ("VecDeque::iter", "VecDeque::range", "VecDeque::iter_mut"), "OutOfOrderQueue.data"):
+                chain.append(short_callee(t.resolved))
+        R.fail([sa.name, "sack-iterator-chain", ">".join(chain)[:120]], "the selective-ACK index iterator is no longer data.range(filled_front + 1 ..).enumerate().filter_map(..) (found: %s): indices are no longer relative to the slot after the first hole" % " > ".join(chain), where=sa.where(), instance="sack-producer-chain")
+        return
     rg = trace(sa, rng[0].args[1])
     kp = None
     if rg.kind == "rv" and rg.root[1].rv.kind == "agg" and rg.root[1].rv.j.get("adt", "").endswith("RangeFrom"):
